@@ -2,6 +2,7 @@ import Mathlib.Algebra.Order.Field.Rat
 import TapkeeVerif.Proofs.QuadTreeForces
 import TapkeeVerif.Proofs.QuadTreeFuel
 import TapkeeVerif.Proofs.QuadTreeRoot
+import TapkeeVerif.Proofs.QuadTreeErr
 /-!
 # C18 — the Barnes–Hut quadtree stores each point once; masses and centres of mass; force sums
 
@@ -111,8 +112,30 @@ theorem forces_exact_below_threshold (data : Nat → K × K) (fuel : Nat) (root 
   obtain ⟨θ₀, hpos, hf⟩ := forces_below_threshold data pi t (allPos_of_WF data t _ hwf (hcell ▸ hroot))
   exact ⟨θ₀, hpos, fun θ hθ => by rw [hf θ hθ, forces_zero_exact data fuel root is t h hd pi]⟩
 
-/- `force_error_bound` — FULL STATEMENT, not proved (DESIGN §9): an explicit bound `C·θ²·ΣQ` on the deviation for every
-   `θ ∈ [0, 2]` and fixed geometry.  The check evaluates it with `C = 16` on every generated case (a test). -/
+/-- **`force_error_bound`** — the error at `θ > 0` is `O(θ²)` relative to `sum_Q`: for every point set without
+    coincident points, every root cell and insertion order, every query index and every `θ` with `θ² ≤ 1/64`,
+    `computeNonEdgeForces(i, θ)` returns `(neg_f, sum_Q)` with
+
+      `|sum_Q − Σ_j q_ij| ≤ 296 θ² · sum_Q`,   `|neg_f[k] − Σ_j q_ij² (y_i − y_j)_k| ≤ 2096 θ² · sum_Q`   (`k = 0, 1`).
+
+    (Per summarised cell the terms linear in the offsets from the centre of mass cancel; the second-order remainders are
+    bounded point by point in `Proofs/QuadTreeErrPoint.lean` using `‖y_j − com‖² ≤ 8 max(hw,hh)² < 8θ²‖y_i − com‖²`.
+    The constants are what that argument yields, not optimal; the check additionally TESTS the bound with `C = 16`.) -/
+theorem force_error_bound (data : Nat → K × K) (fuel : Nat) (root : Cell K) (is : List Nat) (t : Tree K)
+    (h : buildIn data fuel root is = some t) (hd : DistinctIdx data (accepted data root is)) (pi : Nat) (θ : K)
+    (hθ : θ * θ ≤ 1 / 64) :
+    0 ≤ (forces data θ pi t ((0, 0), 0)).2 ∧
+    |(forces data θ pi t ((0, 0), 0)).2 - (exactForces data (accepted data root is) pi).2| ≤
+      296 * (θ * θ) * (forces data θ pi t ((0, 0), 0)).2 ∧
+    |(forces data θ pi t ((0, 0), 0)).1.1 - (exactForces data (accepted data root is) pi).1.1| ≤
+      2096 * (θ * θ) * (forces data θ pi t ((0, 0), 0)).2 ∧
+    |(forces data θ pi t ((0, 0), 0)).1.2 - (exactForces data (accepted data root is) pi).1.2| ≤
+      2096 * (θ * θ) * (forces data θ pi t ((0, 0), 0)).2 := by
+  obtain ⟨h0, h1, h2, h3⟩ := forces_error_exact data fuel root is t h hd pi θ (by linarith)
+  have e1 : 37 * (8 * (θ * θ)) = 296 * (θ * θ) := by ring
+  have e2 : 262 * (8 * (θ * θ)) = 2096 * (θ * θ) := by ring
+  rw [e1] at h1; rw [e2] at h2 h3
+  exact ⟨h0, h1, h2, h3⟩
 
 /-- the square-free summary criterion of the model is the C++ test `std::max(hh, hw) / sqrt(D) < theta` for every
     value `s` a correct `sqrt` can return on `D > 0` (`D = 0` is the explicit IEEE branch of `useSummary`) -/
@@ -223,5 +246,15 @@ example : Gap ([2, 0, 1].map dataE) (1 / 4) := by
       | exact absurd rfl hne
       | (left; decide +kernel)
 example : 2 * max rootW.hw rootW.hh < (1 / 4 : Rat) * 2 ^ 4 := by decide +kernel
+
+/-- `force_error_bound` is not vacuous and not trivial: a query far from a pair of points, `θ = 1/8` — the tree
+    summarises the pair's cell (the result differs from the `θ = 0` one) -/
+def dataS : Nat → Rat × Rat := fun i => if i = 0 then (-7 / 8, -7 / 8) else if i = 1 then (3 / 4, 3 / 4) else (7 / 8, 7 / 8)
+
+example : ((buildIn dataS 5 rootW [0, 1, 2]).map fun t =>
+    decide (forces dataS (1 / 8) 0 t ((0, 0), 0) ≠ forces dataS 0 0 t ((0, 0), 0))) = some true := by decide +kernel
+example : DistinctIdx dataS (accepted dataS rootW [0, 1, 2]) := by
+  unfold DistinctIdx; decide +kernel
+example : ((1 : Rat) / 8) * (1 / 8) ≤ 1 / 64 := by decide +kernel
 
 end TapkeeVerif.QuadTree
